@@ -12,7 +12,10 @@ Inductive op :=
 | OpDel (r k : N) (now now' : Z) (d : dump) (h : list bool)
 | OpSnap (r : N)
 | OpSingle (k : N) (isadd : bool) (v : list N) (t : Z)
-| OpMerge (dst p : N) (d : dump) (h : list bool) (delta : option dump).
+| OpMerge (dst p : N) (d : dump) (h : list bool) (delta : option dump)
+(* the delta object returned by an earlier merge is encoded now (it was queued since): what is
+   sent must still be exactly the delta computed at merge time *)
+| OpDeltaCheck (p : N) (d : dump).
 
 Inductive bop :=
 | BBan (k : N) (t : Z) (was : bool)
@@ -80,6 +83,9 @@ Definition step (s : st) (o : op) : st :=
   | OpSingle k isadd v t =>
     let p := if isadd then lww_add ∅ k v t t else lww_del ∅ k t t in
     St (reps s) (pays s ++ [Some p]) (ok s) (dok s)
+  | OpDeltaCheck p d =>
+    let same := match nth (N.to_nat p) (pays s) None with Some pl => dump_matches pl d | None => false end in
+    St (reps s) (pays s) (ok s && same) (dok s && same)
   | OpMerge dst p d h delta =>
     match nth (N.to_nat p) (pays s) None with
     | None => St (reps s) (pays s) false (dok s)
